@@ -3,6 +3,7 @@ import HcipyVerif.Lemmas.SchedulerCount
 import HcipyVerif.Lemmas.SchedulerTile
 import HcipyVerif.Lemmas.SchedulerTerm
 import HcipyVerif.Lemmas.SchedulerHist
+import HcipyVerif.Lemmas.SchedulerStrong
 
 /-!
 # C20 — Time evolution fires each scheduled callback once, in order, at its time
@@ -130,7 +131,7 @@ theorem clock_at_callback {kids : Entry → List (Rat × Nat)} (hk : WF kids) (T
         intro e' clk h; unfold advance at h; split at h <;> simp at h
 
 theorem fired_lower_bound {kids : Entry → List (Rat × Nat)} (hk : WF kids) (T : Rat) (fuel : Nat)
-    (s : Sys) (hi : Inv s) (b : Entry) (hb : Below b s) :
+    (s : Sys) (hi : InvQ s) (b : Entry) (hb : Below b s) :
     ∀ f ∈ fired (loop kids T fuel s).trace, b.lt f := by
   induction fuel generalizing s with
   | zero => simp [loop, fired]
@@ -141,7 +142,7 @@ theorem fired_lower_bound {kids : Entry → List (Rat × Nat)} (hk : WF kids) (T
       by_cases ht : e.time < T
       · simp only [loop_cons_status hq ht, loop_cons_s hq ht, loop_cons_trace hq ht]
         simp only [fired_append, advance_fired, fired, List.nil_append, List.mem_cons]
-        obtain ⟨hi', -⟩ := next_inv hk hi hq
+        have hi' := next_invQ (kids := kids) hi hq
         have hbe : b.lt e := hb.1 e (by simp [hq])
         rintro f (rfl | hf)
         · exact hbe
@@ -150,9 +151,11 @@ theorem fired_lower_bound {kids : Entry → List (Rat × Nat)} (hk : WF kids) (T
       · rw [loop_stop (Or.inr ⟨e, rest, hq, ht⟩)]; simp [advance_fired]
 
 /-- **Order**: the executed callbacks are strictly increasing in `(time, insertion number)`:
-non-decreasing time, ties in insertion order — and therefore no callback runs twice. -/
+non-decreasing time, ties in insertion order — and therefore no callback runs twice.  Needs only
+the queue invariant `InvQ` (every history reaches it, `history_invQ`: entries may lie in the past)
+and `WF` (which is necessary: `order_needs_wf`). -/
 theorem fired_sorted {kids : Entry → List (Rat × Nat)} (hk : WF kids) (T : Rat) (fuel : Nat)
-    (s : Sys) (hi : Inv s) : Sorted (fired (loop kids T fuel s).trace) := by
+    (s : Sys) (hi : InvQ s) : Sorted (fired (loop kids T fuel s).trace) := by
   induction fuel generalizing s with
   | zero => simp [loop, fired, Sorted]
   | succ fuel ih =>
@@ -162,7 +165,7 @@ theorem fired_sorted {kids : Entry → List (Rat × Nat)} (hk : WF kids) (T : Ra
       by_cases ht : e.time < T
       · simp only [loop_cons_status hq ht, loop_cons_s hq ht, loop_cons_trace hq ht]
         simp only [fired_append, advance_fired, fired, List.nil_append]
-        obtain ⟨hi', -⟩ := next_inv hk hi hq
+        have hi' := next_invQ (kids := kids) hi hq
         have hs := hi.sorted; rw [hq] at hs
         unfold Sorted at hs ⊢; rw [List.pairwise_cons] at hs ⊢
         refine ⟨?_, ih _ hi'⟩
@@ -170,16 +173,20 @@ theorem fired_sorted {kids : Entry → List (Rat × Nat)} (hk : WF kids) (T : Ra
           (below_next hk hq ⟨hs.1, hi.ctr e (by simp [hq]), le_refl _⟩)
       · rw [loop_stop (Or.inr ⟨e, rest, hq, ht⟩)]; simp [advance_fired, Sorted]
 
-theorem fired_nodup {kids : Entry → List (Rat × Nat)} (hk : WF kids) (T : Rat) (fuel : Nat)
-    (s : Sys) (hi : Inv s) : (fired (loop kids T fuel s).trace).Nodup := by
-  have := fired_sorted hk T fuel s hi
-  unfold Sorted at this
-  exact List.Pairwise.imp (R := Entry.lt) (fun {a b} (h : a.lt b) (hab : a = b) => by subst hab; exact Entry.lt_irrefl _ h) this
+/-- **No callback runs twice** — whatever the callbacks schedule (no `WF`), from any state a history
+can reach (`InvQ`), whatever the status. -/
+theorem fired_nodup (kids : Entry → List (Rat × Nat)) (T : Rat) (fuel : Nat)
+    (s : Sys) (hi : InvQ s) : (fired (loop kids T fuel s).trace).Nodup := by
+  have hnd : (fired (loop kids T fuel s).trace ++ (loop kids T fuel s).s.queue).Nodup :=
+    (loop_perm kids T fuel s).nodup_iff.mpr (nodup_queue_spawnedQ hi _)
+  exact (List.nodup_append.mp hnd).1
 
 /-- **Exactly once, part 1 (nothing is lost)**: every queued entry due before the horizon is
-executed; every queued entry due at or after the horizon is still queued afterwards. -/
-theorem queued_fired_or_pending {kids : Entry → List (Rat × Nat)} (hk : WF kids) (T : Rat)
-    (fuel : Nat) (s : Sys) (hi : Inv s) (hok : (loop kids T fuel s).status = .ok) :
+executed; every queued entry due at or after the horizon is still queued afterwards.  Hypotheses:
+only the queue invariant `InvQ` (which every history reaches, `history_invQ`) and that the call
+returns — no `WF`, nothing about entries lying in the past, nothing about the clock. -/
+theorem queued_fired_or_pending (kids : Entry → List (Rat × Nat)) (T : Rat)
+    (fuel : Nat) (s : Sys) (hi : InvQ s) (hok : (loop kids T fuel s).status = .ok) :
     ∀ q ∈ s.queue, (q.time < T → q ∈ fired (loop kids T fuel s).trace) ∧
       (T ≤ q.time → q ∈ (loop kids T fuel s).s.queue) := by
   induction fuel generalizing s with
@@ -192,14 +199,13 @@ theorem queued_fired_or_pending {kids : Entry → List (Rat × Nat)} (hk : WF ki
       unfold Sorted at hs; rw [List.pairwise_cons] at hs
       by_cases ht : e.time < T
       · simp only [loop_cons_status hq ht, loop_cons_s hq ht, loop_cons_trace hq ht] at hok ⊢
-        obtain ⟨hi', -⟩ := next_inv hk hi hq
+        have hi' := next_invQ (kids := kids) hi hq
         have IH := ih _ hi' hok
         simp only [fired_append, advance_fired, fired, List.nil_append, List.mem_cons]
         intro q hq'
         rcases hq' with rfl | hq'
         · exact ⟨fun _ => Or.inl rfl, fun h => absurd ht (not_lt.mpr h)⟩
-        · have hm : q ∈ (next kids s q rest).queue → True := fun _ => trivial
-          have hmem : q ∈ (next kids s e rest).queue :=
+        · have hmem : q ∈ (next kids s e rest).queue :=
             mem_addAll_of_mem (by rw [advance_queue]; exact hq')
           exact ⟨fun h => Or.inr ((IH q hmem).1 h), fun h => (IH q hmem).2 h⟩
       · rw [loop_stop (Or.inr ⟨e, rest, hq, ht⟩)]
@@ -213,11 +219,14 @@ theorem queued_fired_or_pending {kids : Entry → List (Rat × Nat)} (hk : WF ki
         simp only [advance_queue, hq]; exact hq'
 
 /-- **Exactly once, part 2 (callbacks may schedule callbacks)**: a callback scheduled *by an
-executed callback* for a time before the horizon is executed too. -/
-theorem kids_fired {kids : Entry → List (Rat × Nat)} (hk : WF kids) (T : Rat)
-    (fuel : Nat) (s : Sys) (hi : Inv s) (hok : (loop kids T fuel s).status = .ok) :
+executed callback* for a time before the horizon — be it earlier than the parent's own time — is
+executed too, later in the run than its parent (`[e, f]` is a sublist of the executed list) and
+with a later insertion number.  Hypotheses: `InvQ` and that the call returns. -/
+theorem kids_fired (kids : Entry → List (Rat × Nat)) (T : Rat)
+    (fuel : Nat) (s : Sys) (hi : InvQ s) (hok : (loop kids T fuel s).status = .ok) :
     ∀ e ∈ fired (loop kids T fuel s).trace, ∀ c ∈ kids e, c.1 < T →
-      ∃ f ∈ fired (loop kids T fuel s).trace, f.time = c.1 ∧ f.id = c.2 ∧ e.lt f := by
+      ∃ f ∈ fired (loop kids T fuel s).trace, f.time = c.1 ∧ f.id = c.2 ∧ e.ctr < f.ctr ∧
+        [e, f].Sublist (fired (loop kids T fuel s).trace) := by
   induction fuel generalizing s with
   | zero => simp [loop] at hok
   | succ fuel ih =>
@@ -226,22 +235,37 @@ theorem kids_fired {kids : Entry → List (Rat × Nat)} (hk : WF kids) (T : Rat)
     | e :: rest =>
       by_cases ht : e.time < T
       · simp only [loop_cons_status hq ht, loop_cons_s hq ht, loop_cons_trace hq ht] at hok ⊢
-        obtain ⟨hi', -⟩ := next_inv hk hi hq
+        have hi' := next_invQ (kids := kids) hi hq
         have IH := ih _ hi' hok
-        have hs := hi.sorted; rw [hq] at hs
-        unfold Sorted at hs; rw [List.pairwise_cons] at hs
         simp only [fired_append, advance_fired, fired, List.nil_append, List.mem_cons]
         rintro e' (rfl | he') c hc hcT
         · -- the child was inserted into the queue the loop continues with
           obtain ⟨q, hqm, h1, h2, h3⟩ :=
             mem_addAll_of_kid (s := (advance { s with queue := rest } (e'.time - s.t)).1) hc
-          have hf := (queued_fired_or_pending hk T fuel _ hi' hok q hqm).1 (by rw [h1]; exact hcT)
-          refine ⟨q, Or.inr hf, h1, h2, ?_⟩
-          exact fired_lower_bound hk T fuel _ hi' e'
-            (below_next hk hq ⟨hs.1, hi.ctr e' (by simp [hq]), le_refl _⟩) q hf
-        · obtain ⟨f, hf, h1, h2, h3⟩ := IH e' he' c hc hcT
-          exact ⟨f, Or.inr hf, h1, h2, h3⟩
+          have hf := (queued_fired_or_pending kids T fuel _ hi' hok q hqm).1 (by rw [h1]; exact hcT)
+          refine ⟨q, Or.inr hf, h1, h2, ?_, ?_⟩
+          · rw [advance_ctr] at h3
+            have := hi.ctr e' (by simp [hq])
+            simp only at h3
+            omega
+          · exact List.Sublist.cons₂ _ (List.singleton_sublist.mpr hf)
+        · obtain ⟨f, hf, h1, h2, h3, h4⟩ := IH e' he' c hc hcT
+          exact ⟨f, Or.inr hf, h1, h2, h3, List.Sublist.cons _ h4⟩
       · rw [loop_stop (Or.inr ⟨e, rest, hq, ht⟩)]; simp [advance_fired]
+
+/-- With `WF` (children not before their parent's time) the child also comes after its parent in
+the `(time, counter)` order. -/
+theorem kids_fired_later {kids : Entry → List (Rat × Nat)} (hk : WF kids) (T : Rat)
+    (fuel : Nat) (s : Sys) (hi : InvQ s) (hok : (loop kids T fuel s).status = .ok) :
+    ∀ e ∈ fired (loop kids T fuel s).trace, ∀ c ∈ kids e, c.1 < T →
+      ∃ f ∈ fired (loop kids T fuel s).trace, f.time = c.1 ∧ f.id = c.2 ∧ e.lt f := by
+  intro e he c hc hcT
+  obtain ⟨f, hf, h1, h2, h3, -⟩ := kids_fired kids T fuel s hi hok e he c hc hcT
+  refine ⟨f, hf, h1, h2, ?_⟩
+  have := hk e c hc
+  rcases lt_or_eq_of_le this with h | h
+  · left; rw [h1]; exact h
+  · right; exact ⟨by rw [h1]; exact h, h3⟩
 
 /-- **Exactly once, part 3 (nothing is invented)**: whatever is executed was queued at the start
 or was scheduled by an executed callback. -/
@@ -266,11 +290,18 @@ theorem fired_origin {kids : Entry → List (Rat × Nat)} (T : Rat) (fuel : Nat)
           · right; exact ⟨e', Or.inr he', h⟩
       · rw [loop_stop (Or.inr ⟨e, rest, hq, ht⟩)]; simp [advance_fired]
 
-/-- **Moving backwards is refused**, and the state is left untouched. -/
+/-- **Moving backwards is refused**, nothing is integrated or executed, and the state (clock,
+queue, counter) is left untouched. -/
 theorem backwards_refused (kids : Entry → List (Rat × Nat)) (fuel : Nat) (s : Sys) (T : Rat)
     (h : T < s.t) : (evolveUntil kids fuel s T).status = .backwards ∧
-      (evolveUntil kids fuel s T).trace = [] := by
+      (evolveUntil kids fuel s T).trace = [] ∧ (evolveUntil kids fuel s T).s = s := by
   simp [evolveUntil, h]
+
+/-- … and conversely a call that is not backwards is never refused. -/
+theorem forwards_not_refused (kids : Entry → List (Rat × Nat)) (fuel : Nat) (s : Sys) (T : Rat)
+    (h : s.t ≤ T) : (evolveUntil kids fuel s T).status ≠ .backwards := by
+  simp only [evolveUntil, not_lt.mpr h, if_false]
+  rcases loop_status kids T fuel s with h' | h' <;> rw [h'] <;> decide
 
 /-- **No callbacks queued**: the evolution still succeeds and is a single integration (or none,
 below the threshold) — for every positive fuel. -/
@@ -281,12 +312,6 @@ theorem empty_queue_ok (kids : Entry → List (Rat × Nat)) (fuel : Nat) (s : Sy
   have : ¬ T < s.t := not_lt.mpr hT
   simp only [evolveUntil, this, if_false, loop_stop (Or.inl hq)]
   exact ⟨trivial, advance_lag s T hT⟩
-
-/-- The code before the repair raised on an empty queue (kept as a regression witness). -/
-theorem empty_queue_raised_before_fix (kids : Entry → List (Rat × Nat)) (fuel : Nat) (T : Rat)
-    (hT : 0 ≤ T) : (evolveUntilOld kids (fuel + 1) init T).status = .emptyQueue := by
-  have : ¬ T < 0 := not_lt.mpr hT
-  simp [evolveUntilOld, loopOld, init, this]
 
 /-- **Termination**: if callbacks schedule nothing, `queue.length + 1` iterations suffice. -/
 theorem terminates_without_reinsertion (T : Rat) (s : Sys) :
@@ -317,8 +342,8 @@ theorem evolveUntil_spec {kids : Entry → List (Rat × Nat)} (hk : WF kids) (T 
   have hn : ¬ T < s.t := not_lt.mpr hT
   simp only [evolveUntil, hn, if_false] at hok ⊢
   obtain ⟨h1, h2, h3, h4, h5⟩ := loop_clock hk T fuel s hi hT hok
-  exact ⟨h1, h2, h3, h4, h5, fired_sorted hk T fuel s hi, clock_at_callback hk T fuel s hi,
-    queued_fired_or_pending hk T fuel s hi hok⟩
+  exact ⟨h1, h2, h3, h4, h5, fired_sorted hk T fuel s hi.toQ, clock_at_callback hk T fuel s hi,
+    queued_fired_or_pending kids T fuel s hi.toQ hok⟩
 
 /-! ### Conservation: "exactly once" as counting -/
 
@@ -362,22 +387,21 @@ theorem evolveUntil_conservation (kids : Entry → List (Rat × Nat)) (fuel : Na
 /-- **Exactly once, as multiplicities.**  Of all entries that ever existed during the evolution
 (queued at the start or created by an executed callback), each one due before the horizon was
 executed with multiplicity exactly one and is no longer queued; each one due at or after the
-horizon is still queued and was not executed. -/
-theorem exactly_once_count {kids : Entry → List (Rat × Nat)} (hk : WF kids) (T : Rat) (fuel : Nat)
-    (s : Sys) (hi : Inv s) (hT : s.t ≤ T) (hok : (loop kids T fuel s).status = .ok) :
+horizon is still queued and was not executed.  Hypotheses: only `InvQ` (reached by every history,
+`history_invQ`) and that the call returns — `WF`, "nothing queued in the past" and `s.t ≤ T` are
+not needed. -/
+theorem exactly_once_count (kids : Entry → List (Rat × Nat)) (T : Rat) (fuel : Nat)
+    (s : Sys) (hi : InvQ s) (hok : (loop kids T fuel s).status = .ok) :
     ∀ c ∈ s.queue ++ spawned kids s.ctr (fired (loop kids T fuel s).trace),
       (c.time < T → (fired (loop kids T fuel s).trace).count c = 1 ∧ c ∉ (loop kids T fuel s).s.queue) ∧
       (T ≤ c.time → c ∈ (loop kids T fuel s).s.queue ∧ (fired (loop kids T fuel s).trace).count c = 0) := by
   intro c hc
   have hp := loop_perm kids T fuel s
   have hnd : (fired (loop kids T fuel s).trace ++ (loop kids T fuel s).s.queue).Nodup :=
-    hp.nodup_iff.mpr (nodup_queue_spawned hi _)
+    hp.nodup_iff.mpr (nodup_queue_spawnedQ hi _)
   have hmem := hp.mem_iff.mpr hc
-  obtain ⟨-, -, -, -, hq⟩ := loop_clock hk T fuel s hi hT hok
-  have hf : ∀ f ∈ fired (loop kids T fuel s).trace, f.time < T := by
-    intro f hf
-    obtain ⟨clk, hclk⟩ := mem_fired.mp hf
-    exact (clock_at_callback hk T fuel s hi f clk hclk).2.2
+  have hq := loop_queue_ge kids T fuel s hi hok
+  have hf := fired_lt_horizon kids T fuel s
   rw [List.nodup_append] at hnd
   constructor
   · intro hlt
@@ -593,8 +617,8 @@ theorem history_step_evolve {kids : Entry → List (Rat × Nat)} (hk : WF kids) 
       · simp only [fired_append]
         unfold Sorted
         rw [List.pairwise_append]
-        exact ⟨hi.sorted, fired_sorted hk T fuel h.s hi.inv, fun f hf g hg =>
-          fired_lower_bound hk T fuel h.s hi.inv f (hbelow f hf) g hg⟩
+        exact ⟨hi.sorted, fired_sorted hk T fuel h.s hi.inv.toQ, fun f hf g hg =>
+          fired_lower_bound hk T fuel h.s hi.inv.toQ f (hbelow f hf) g hg⟩
       · intro f hf
         simp only [fired_append, List.mem_append] at hf
         rcases hf with hf | hf
